@@ -26,7 +26,8 @@ RULE = ("Exhaustive enumeration (no random choice): (A) all 2^7 presence pattern
         "the target arguments (incl. all_classes_mode), each also with present-but-empty raw_graph='' / rdflib Graph(); (B) every single source x every valid target pattern x compression "
         "{None,gz,zip,xz,bogus} x input formats + bogus x examples modes + bogus x the 4 or-flag combinations (quick: examples/or-flags "
         "cycled instead of multiplied); (C) thresholds {-0.01,0,1,1.01} x output formats {ShEx,Shacl,bogus} x sinks {none,string,"
-        "file,both,uml,uml+string} (the PlantUML call is replaced by a recorder).  Oracle: reference predicate; constructor / shex_graph raise ValueError <=> predicate says invalid, any other "
+        "file,both,uml,uml+string} (the PlantUML call is replaced by a recorder); (D) near-miss unknown values for the four closed vocabularies (every substring of "
+        "length <= 5 of the joined vocabulary, prefixes, suffixes, case variants, padded / extended / empty strings) and thresholds within 1e-9 .. 1 ulp of the interval ends.  Oracle: reference predicate; constructor / shex_graph raise ValueError <=> predicate says invalid, any other "
         "exception type is a violation, and an accepted configuration must complete a shex_graph call on a tiny graph served in the "
         "declared format/compression (no deferral).  Non-trivial: the configuration differs from a valid one in at most one argument "
         "group (the accept/reject boundary) - all are counted; distinct by the case itself.")
@@ -275,6 +276,25 @@ def _subsets(names):
             yield list(comb)
 
 
+def near_misses(valid):
+    """strings that are NOT in the vocabulary but close to it: every substring (length <= 5) of the vocabulary joined the way an
+    error message would join it, prefixes / suffixes, case variants, padded, extended and empty values"""
+    out = []
+    joined = ", ".join(valid)
+    for i in range(len(joined)):
+        for L in range(1, 6):
+            out.append(joined[i:i + L])
+    for v in valid:
+        out += [v.upper(), v.lower(), v.capitalize(), v[:-1], v[1:], v + " ", " " + v, v + "x", "x" + v, v + "\n", v + "," + v,
+                v.replace("_", "-"), v.replace("-", "_")]
+    out += ["", " ", joined, ",", "None", "none", "null"]
+    seen = set(valid)
+    for o in out:
+        if o not in seen:
+            seen.add(o)
+            yield o
+
+
 VALID_TARGETS = [(["target_classes"], False), (["file_target_classes"], False), (["shape_map_file"], False), (["shape_map_raw"], False),
                  ([], True), (["shape_map_raw"], True), (["shape_map_file"], True)]
 
@@ -309,6 +329,19 @@ def enumerate_cases(tier):
         for o in ors:
             yield dict(base, sources=["raw_graph"], targets=[], all_classes=True, examples=ex)
             yield {"sources": ["raw_graph"], "targets": ["target_classes"], "all_classes": False, "format": "nt", "compression": None, "examples": ex, "or": o}
+    # (D) near-miss unknown values: the single representative 'bogus' cannot tell a membership test from a substring / prefix /
+    # case-insensitive test, so every argument with a closed vocabulary is also probed with strings derived from the valid ones
+    for fmt in near_misses(FORMATS[:-1]):
+        yield dict(base, sources=["raw_graph"], targets=[], all_classes=True, format=fmt)
+    for comp in near_misses(["gz", "zip", "xz"]):
+        yield dict(base, sources=["graph_file_input"], targets=[], all_classes=True, compression=comp)
+    for ex in near_misses(["shape", "cons", "all"]):
+        yield dict(base, sources=["raw_graph"], targets=[], all_classes=True, examples=ex)
+    for fmt in near_misses(["ShEx", "Shacl"]):
+        for sink in ("string", "file"):
+            yield dict(base, sources=["raw_graph"], targets=[], all_classes=True, call={"thr": 0, "fmt": fmt, "sink": sink})
+    for thr in (-1e-9, -1e-300, 1 + 1e-9, 1.0000000000000002, 2, -1, 1e-300, 1 - 1e-16, 0.0, 1.0):
+        yield dict(base, sources=["raw_graph"], targets=[], all_classes=True, call={"thr": thr, "fmt": "ShEx", "sink": "string"})
     # (C) call-time checks
     for thr in (-0.01, 0, 1, 1.01):
         for fmt in ("ShEx", "Shacl", "bogus"):
